@@ -262,9 +262,7 @@ theorem mergeNew_noPanic : ∀ (vs : List Vsys) (p1 : Config), NoPanic (mergeNew
   | [], p1 => by unfold mergeNew; exact noPanic_ok _
   | v :: vs, p1 => by
     unfold mergeNew
-    split
-    · exact mergeNew_noPanic vs p1
-    · exact NoPanic.bind (addVsys_noPanic p1 v) fun p1' => mergeNew_noPanic vs p1'
+    exact NoPanic.bind (addVsys_noPanic p1 v) fun p1' => mergeNew_noPanic vs p1'
 
 /-- `MergeSpoc` after the fix: no Go panic for ANY two decoded configurations. -/
 theorem mergeSpoc_noPanic (p1 p2 : Config) : NoPanic (mergeSpoc true p1 p2) := by
